@@ -52,6 +52,8 @@ def jobs(tier):
                     continue
                 js.append(dict(name="%s:la%d:w%d" % ("".join(p), la, w), pipe=p, lookahead=la, workers=w, P=1,
                                gran="line" if w == 1 else "sync", rich=False))
+        js = common.shard(js, "acc0", 4, lambda j: not j.get("timed2") and len(j["pipe"]) > 1)
+        js = common.shard(js, "acc1", 2, lambda j: not j.get("timed2") and len(j["pipe"]) > 1)
         return js
     js = jobs("quick")
     have = set(j["name"] for j in js)
